@@ -77,6 +77,15 @@ func (p *JSONParser) Parse(jsonString string) (*core.Payload, error) {
 		return nil, core.ErrParsingPayload.Wrap("json arrays cannot contain null elements")
 	}
 
+	// NOTE: when both members of the fee type oneof are present in the same JSON object, the
+	// member kept by the codec depends on the iteration order of a Go map, hence it is not
+	// deterministic. Such an entry is ambiguous and is rejected.
+	if containsAmbiguousFeeType(jsonData) {
+		return nil, core.ErrParsingPayload.Wrap(
+			"a fee entry cannot set both basis points and amount",
+		)
+	}
+
 	pw := core.PayloadWrapper{}
 	err = types.UnmarshalJSON(p.cdc, []byte(jsonString), &pw)
 	if err != nil {
@@ -87,6 +96,34 @@ func (p *JSONParser) Parse(jsonString string) (*core.Payload, error) {
 	}
 
 	return pw.Orbiter, nil
+}
+
+// containsAmbiguousFeeType returns true if the decoded JSON value contains, at any depth, an
+// object with both the members of the fee type oneof.
+func containsAmbiguousFeeType(value any) bool {
+	switch v := value.(type) {
+	case map[string]any:
+		_, hasBasisPoints := v["basis_points"]
+		_, hasBasisPointsCamel := v["basisPoints"]
+		_, hasAmount := v["amount"]
+		if (hasBasisPoints || hasBasisPointsCamel) && hasAmount {
+			return true
+		}
+
+		for _, element := range v {
+			if containsAmbiguousFeeType(element) {
+				return true
+			}
+		}
+	case []any:
+		for _, element := range v {
+			if containsAmbiguousFeeType(element) {
+				return true
+			}
+		}
+	}
+
+	return false
 }
 
 // containsNullArrayElement returns true if the decoded JSON value contains, at any depth, an
